@@ -136,6 +136,10 @@ def judge(stdout_lines, events_by_key, f32=False):
                 if math.isnan(e) or math.isinf(m) or math.isinf(e):
                     stats["real_unevaluable"] += 1     # outside the function's domain: not judged
                     continue
+                lo, hi = (1e-37, 1e38) if f32 else (1e-300, 1e300)
+                if (e != 0 and abs(e) < lo) or abs(e) > hi or m > hi:
+                    stats["real_unevaluable"] += 1     # a term under- or overflows the float format: "rounding
+                    continue                           # of the terms involved" says nothing here - not judged
                 tol = TOL_ULPS * eps * max(m, abs(e), 1e-300)
                 err = abs(e - o) if not math.isnan(o) else float("inf")
                 if err > tol:
